@@ -813,3 +813,118 @@ pub fn exhaustive_trees(n: usize, net: Net, threshold: u8) -> Vec<History> {
     }
     out
 }
+
+/// Sampled counterpart of `exhaustive_trees` for sizes the quick tier cannot enumerate: a uniform
+/// parent vector (parent[i] in 0..=i, i.e. a uniform (shape, arrival order) pair) with n
+/// non-genesis blocks and difficulties uniform over {1,2,3}, so that exact ties on accumulated
+/// difficulty between branches of different length and nested lighter-but-longer side branches
+/// are frequent. Nothing stabilises (the threshold is never reached).
+pub fn small_difficulty_tree_strategy(nmin: usize, nmax: usize, threshold: u8) -> BoxedStrategy<History> {
+    (
+        prop_oneof![Just(Net::Mainnet), Just(Net::Testnet), Just(Net::Regtest)],
+        prop::collection::vec((any::<u16>(), 0u8..3), nmin..=nmax),
+    )
+        .prop_map(move |(net, nodes)| {
+            let ops: Vec<Op> = nodes
+                .iter()
+                .enumerate()
+                .map(|(i, (sel, d))| Op::Extend {
+                    parent: ParentSel::Any(sel_for(((*sel as usize) * (i + 1)) >> 16, i + 1)),
+                    coinbase: vec![(0, 1)],
+                    txs: vec![],
+                    diff: *d,
+                    dt: 1,
+                    reuse: None,
+                })
+                .collect();
+            History { cfg: Cfg { net, threshold, pool: vec![ScriptSpec::P2pkh(0)], diff_mode: DiffMode::Random, validated: false }, ops }
+        })
+        .boxed()
+}
+
+/// Constructed fork trees for the tie-break rules: two branches A and B below a common block with
+/// *equal* accumulated difficulty (the last block of the lighter one is topped up) and lengths
+/// 1..3 each, plus a side branch of 1..4 difficulty-1 blocks below the fork point or an inner
+/// block of A or B (usually lighter but longer than the rest of that spine), in one of three
+/// arrival orders. Nothing stabilises (the threshold is never reached).
+pub fn tie_side_branch_strategy(threshold: u8) -> BoxedStrategy<History> {
+    (
+        prop_oneof![Just(Net::Mainnet), Just(Net::Testnet), Just(Net::Regtest)],
+        0usize..=2,
+        prop::collection::vec(3u8..=5, 1..=3),
+        prop::collection::vec(3u8..=5, 1..=3),
+        any::<bool>(),
+        any::<u8>(),
+        1usize..=4,
+        0u8..3,
+    )
+        .prop_map(move |(net, prefix, mut a, mut b, side_on_a, k, ls, order)| {
+            let (sa, sb): (u32, u32) = (a.iter().map(|x| *x as u32).sum(), b.iter().map(|x| *x as u32).sum());
+            if sa < sb {
+                *a.last_mut().unwrap() += (sb - sa) as u8;
+            } else {
+                *b.last_mut().unwrap() += (sa - sb) as u8;
+            }
+            // symbolic nodes: (name, parent name, difficulty); names: P<i>, A<i>, B<i>, S<i>, "G"
+            let mut groups: Vec<Vec<(String, String, u8)>> = vec![];
+            let mut pre = vec![];
+            let mut last = "G".to_string();
+            for i in 0..prefix {
+                pre.push((format!("P{i}"), last.clone(), 2u8));
+                last = format!("P{i}");
+            }
+            let fork = last.clone();
+            let spine = |tag: &str, d: &Vec<u8>| -> Vec<(String, String, u8)> {
+                let mut v = vec![];
+                let mut l = fork.clone();
+                for (i, x) in d.iter().enumerate() {
+                    v.push((format!("{tag}{i}"), l.clone(), *x));
+                    l = format!("{tag}{i}");
+                }
+                v
+            };
+            let ga = spine("A", &a);
+            let gb = spine("B", &b);
+            let host = if side_on_a { &a } else { &b };
+            let kk = k as usize % host.len(); // 0 = fork point, i = below the i-th spine block (never the spine tip)
+            let mut l = if kk == 0 { fork.clone() } else { format!("{}{}", if side_on_a { "A" } else { "B" }, kk - 1) };
+            let mut gs = vec![];
+            for i in 0..ls {
+                gs.push((format!("S{i}"), l.clone(), 1u8));
+                l = format!("S{i}");
+            }
+            groups.push(pre);
+            match (order, side_on_a) {
+                (0, _) => {
+                    groups.push(ga);
+                    groups.push(gb);
+                    groups.push(gs);
+                }
+                (1, _) => {
+                    groups.push(gb);
+                    groups.push(ga);
+                    groups.push(gs);
+                }
+                (_, true) => {
+                    groups.push(ga);
+                    groups.push(gs);
+                    groups.push(gb);
+                }
+                (_, false) => {
+                    groups.push(gb);
+                    groups.push(gs);
+                    groups.push(ga);
+                }
+            }
+            let mut index: std::collections::BTreeMap<String, usize> = Default::default();
+            index.insert("G".to_string(), 0);
+            let mut ops = vec![];
+            for (name, parent, d) in groups.into_iter().flatten() {
+                let n = index.len();
+                ops.push(Op::Extend { parent: ParentSel::Any(sel_for(index[&parent], n)), coinbase: vec![(0, 1)], txs: vec![], diff: d - 1, dt: 1, reuse: None });
+                index.insert(name, n);
+            }
+            History { cfg: Cfg { net, threshold, pool: vec![ScriptSpec::P2pkh(0)], diff_mode: DiffMode::Random, validated: false }, ops }
+        })
+        .boxed()
+}
